@@ -36,6 +36,9 @@ CHECKS = {
  "C19": ("proof", "Lean 4 theorems over the preset definitions translated from get_radii's AST and ASE's tables (decide +kernel over Z=1..103 plus general lemmas for all tables); exhaustive correspondence model vs real function; consumer equality sampled.",
          STD_NOTE + "tools/gen_radii.py, IEEE comparison model R.ne/R.eq; consumer structure (callers use only get_radii's result) is sampled, not proved.",
          "Lean 4 proof over AST-translated model + exhaustive correspondence", "DESIGN.md §6 C19"),
+ "C20": ("proof", "Lean 4 over Q (Cramer): to_scaled/to_cartesian are mutual inverses for every non-singular cell; wrapping changes periodic components by integers into [0,1); get_minimized_cell for every axis and scale: identical mutual displacements, only the chosen row changes and stays parallel, other fractional coordinates unchanged, atoms inside [0,1] and centred when padded, length^2 = s^2|c|^2; swap_basis; complete_cell orthogonality; periodic centre of mass through the circular sum (Mathlib complex exponential): rigid translation rotates the sum by 2 pi t, integer shifts leave every term unchanged; inertia tensor about the centre is translation invariant. Correspondence on dyadic inputs for scaled/cartesian/mincell/inertia; every clause also evaluated numerically.",
+         STD_NOTE + "Mathlib; model Frame.lean; LAPACK solve/eigh and arctan2 are contracts (checked numerically at 1e-8); sqrt in the inflated case is a parameter s of the theorems.",
+         "Lean 4 proof over an exact-arithmetic model + correspondence", "DESIGN.md §6 C20"),
 }
 NOT_BUILT = "check not built yet (work in progress, see DESIGN.md §11)"
 
